@@ -42,7 +42,7 @@ PROPS = {
     "C10": {"jobs": [enum("TestC10Single"), enum("TestC10Paths"), enum("TestC10Request"), rapid("TestC10Multi", 2500, 8000)]},
     "C06": {"jobs": [rapid("TestC06", 1200, 8000), rapid("TestC06Engine", 4000, 30000), enum("TestC06Reuse"), enum("TestC06AllTTLs"), enum("TestC06UDP6ChecksumSearch"), rapid("TestC06Concurrent", 600, 4000)]},
     "C20": {"jobs": [enum("TestC20Table"), rapid("TestC20", 2000, 2000), enum("TestC20ConnectTimeout")]},
-    "C11": {"jobs": [rapid("TestC11", 800, 4000), rapid("TestC11Request", 800, 3000), rapid("TestC11Alloc", 500, 3000), enum("TestC11EchoIDs")]},
+    "C11": {"jobs": [rapid("TestC11", 800, 4000), rapid("TestC11Request", 800, 3000), rapid("TestC11Alloc", 500, 3000), enum("TestC11EchoIDs"), enum("TestC11EchoIDsConcurrent")]},
     "C12": {"jobs": [enum("TestC12Classes"), rapid("TestC12Random", 20000, 300000), rapid("TestC12EndToEnd", 1500, 10000)]},
     "C13": {"jobs": [{"kind": "script", "name": "C13Kernel", "run": "C13Kernel", "cmd": ["python3", "c13_kernel.py"], "timeout_quick": 600, "timeout_thorough": 2400},
                      # "several traceroutes running at once" on the real-socket path: a wrong result there needs an
